@@ -106,10 +106,18 @@ fn main() {
                     if !thorough && ext && cached {
                         depth -= 1;
                     }
-                    runs.push((Cfg { ext, cached, nodes, late, alpha }, depth));
+                    runs.push((Cfg { ext, cached, nodes, late, alpha, mixed: false, ts: 0 }, depth));
                 }
             }
         }
+    }
+    // timestamps: {session generator} x {explicit timestamp on the statement}; the all-off combination is every run above
+    for ts in [3u8, 1, 2] {
+        runs.push((Cfg { ext: true, cached: false, nodes: 1, late: false, alpha: if thorough { 2 } else { 1 }, mixed: false, ts }, if thorough { 5 } else { 3 }));
+    }
+    // mixed cluster: node 0 with the metadata-id extension, node 1 without; the statement's metadata is shared by both
+    for cached in [true, false] {
+        runs.push((Cfg { ext: false, cached, nodes: 2, late: false, alpha: if thorough { 1 } else { 0 }, mixed: true, ts: if cached { 0 } else { 3 } }, if thorough { 5 } else { 3 }));
     }
     // cheap configurations first, so that a wall cap (reported, never silent) can only cut the tail
     runs.sort_by_key(|(c, _)| c.nodes);
@@ -163,7 +171,7 @@ fn main() {
     }
     // E-BFS audit (thorough): the same space explored with 3 and with all worker threads must give identical counts
     if thorough && only.is_none() {
-        let cfg = Cfg { ext: true, cached: false, nodes: 1, late: true, alpha: 2 };
+        let cfg = Cfg { ext: true, cached: false, nodes: 1, late: true, alpha: 2, mixed: false, ts: 0 };
         let m = M { cfg, max_version: 4, r: &r };
         let a = bfs(&m, &BfsOpts { max_depth: 4, max_states: 2_000_000, wall: Duration::from_secs(600), jobs: 3, max_violations: 1 });
         let b = bfs(&m, &BfsOpts { max_depth: 4, max_states: 2_000_000, wall: Duration::from_secs(600), jobs, max_violations: 1 });
